@@ -70,3 +70,11 @@ PROPS["L2S"] = dict(
     kani=dict(quick=["strong_h.rs::" + h for h in _C08 + _L2S + _C10 + _C19 + ["c11_rc_snapshot_tags"]]),
     trusted_base=[A_TOOLS], kani_flags=["--no-assertion-reach-checks"],
 )
+
+_C09 = ["c09_compare_exchange", "c09_compare_exchange_weak", "c09_compare_exchange_tag", "c09_load_store_swap", "c09_drop_from_get_mut"]
+_L2W = ["l2_weak_ledger", "c05_weak_upgrade", "c05_wsnap_upgrade", "c11_weak_tags"]
+PROPS["L2W"] = dict(
+    title="(dev) all weak.rs L2 contracts", level="proof", modules=["utils_rg_h.rs", "internal_h.rs", "weak_h.rs"], contract_groups=[],
+    kani=dict(quick=["weak_h.rs::" + h for h in _C09 + _L2W]),
+    trusted_base=[A_TOOLS], kani_flags=["--no-assertion-reach-checks"],
+)
